@@ -1,7 +1,7 @@
 """C08 — underdetermined fits reproduce the target and optimise the chosen secondary goal."""
 import numpy as np
 from fractions import Fraction
-from common import F, rs, vs, ms, dyadic, close, call, parse_rat
+from common import F, rs, vs, ms, dyadic, close, call, parse_rat, as_given
 from systems import gen_A, gen_K, gen_baseline, apply_K
 from fitlib import K_text, ub_text, parse_prep
 from certlib import dual_hints, cert_args_text
@@ -11,13 +11,17 @@ def run(R):
     import dreye
     from dreye.api.optimize.lsq_linear import lsq_linear_underdetermined
     nsys = 8 if R.tier == "quick" else 120
-    R.rule = ("underdetermined systems 2-4 receptors + 1-3 surplus sources, lb zero/positive, finite ub, K none/scalar/vector/"
-              "matrix, baseline, weights; in-gamut targets; every option value {'l2','min','max','var', number, vector (also with "
-              "entries outside the bounds)}; tolerances 1e-6..1e-3; via lsq_linear_underdetermined and fit_underdetermined. For every "
-              "row: exact feasibility of dreye's answer in Q (bounds, ||W(A'x-b')|| <= l2_eps) and a certified bound "
-              "goal(x) <= goal(y) + delta for EVERY feasible y from multipliers accepted by the verified linLower (theorems "
-              "linear/quadratic_goal_of_cert). Non-trivial: the secondary goal is not attained at a vertex trivially, i.e. every "
-              "case with >= 1 surplus source.")
+    R.rule = ("underdetermined systems 2-4 receptors + 1-3 surplus sources, lb zero/positive, finite ub, optionally 1..surplus sources "
+              "clamped by their bounds (lb[i] == ub[i], zero or non-zero), K none/scalar/vector/matrix, baseline, weights (none / one "
+              "vector / one row per sample); 1-7 in-gamut targets per call (single target, as many targets as sources, as many as "
+              "receptors, other counts), targets as array/list/Fortran/strided; every option value {'l2','min','max','var', number "
+              "(python float, numpy scalar, python int when whole), vector (also with entries outside the bounds, whole-number vectors "
+              "also as integer arrays, strided views)}; tolerances 1e-6..1e-3; via lsq_linear_underdetermined and fit_underdetermined. "
+              "The one option value of a call applies to every target of the call. For every row: exact feasibility of dreye's answer "
+              "in Q (bounds, ||W(A'x-b')|| <= l2_eps) and a certified bound goal(x) <= goal(y) + delta for EVERY feasible y from "
+              "multipliers accepted by the verified linLower (theorems linear/quadratic_goal_of_cert); total, variance and distance "
+              "are taken over ALL sources (clamped ones included). Non-trivial: the secondary goal is not attained at a vertex "
+              "trivially, i.e. every case with >= 1 surplus source.")
     OPTS = ["l2", "min", "max", "var", "number", "vector", "vector_out"]
     jobs = []
     for si in range(nsys):
@@ -27,124 +31,179 @@ def run(R):
         kk, K = gen_K(rng, nf)
         bk, base = gen_baseline(rng, nf)
         lbk = str(rng.choice(["zero", "pos"]))
-        lb = np.zeros(ns) if lbk == "zero" else dyadic(rng, 0.0625, 0.25, 4, size=ns)
-        ub = lb + dyadic(rng, 1, 3, 2, size=ns)
+        lb0 = np.zeros(ns) if lbk == "zero" else dyadic(rng, 0.0625, 0.25, 4, size=ns)
+        ub0 = lb0 + dyadic(rng, 1, 3, 2, size=ns)
         Ap, bp = apply_K(A, K, base)
         w = None if rng.integers(2) else dyadic(rng, 0.5, 2, 2, size=nf)
-        wv = np.ones(nf) if w is None else w
         for oi, oname in enumerate(OPTS):
             k = "s%d_%s" % (si, oname)
             if not R.want(k):
                 continue
             rr = R.rng(2, si, oi)
-            xt = lb + dyadic(rr, 0.25, 0.75, 3, size=ns) * (ub - lb)
-            b = Ap @ xt + bp
+            # bounds of this call: the system's box, optionally with sources that cannot vary (lb[i] == ub[i])
+            lb, ub = lb0.copy(), ub0.copy()
+            nclamp = 0
+            if rr.random() < 0.35:
+                nclamp = int(rr.integers(1, ns - nf + 1))
+                for j in rr.choice(ns, size=nclamp, replace=False):
+                    v = 0.0 if rr.random() < 0.3 else float(dyadic(rr, 0.25, 2, 2))
+                    lb[j] = ub[j] = v
+            R.count("clamped_sources:%d" % nclamp)
+            # number of targets of the call: the coinciding sizes (ns, nf) are part of the class
+            nbk = str(rr.choice(["one", "one", "n_sources", "n_receptors", "other"]))
+            nb = {"one": 1, "n_sources": ns, "n_receptors": nf}.get(nbk) or int(rr.integers(2, 7))
+            R.count("n_targets:" + nbk); R.count("n_targets=%d" % nb)
+            XT = lb + dyadic(rr, 0.25, 0.75, 3, size=(nb, ns)) * (ub - lb)
+            B = XT @ Ap.T + bp
             eps = float(rr.choice([1e-6, 1e-5, 1e-4, 1e-3]))
-            if oname == "number":
-                opt = float(dyadic(rr, 0.5, 1.5, 2)) * float(np.sum(xt))
-            elif oname == "vector":
-                opt = lb + dyadic(rr, 0.1, 0.9, 3, size=ns) * (ub - lb)
-            elif oname == "vector_out":
-                opt = lb + dyadic(rr, -0.5, 1.5, 3, size=ns) * (ub - lb)
-            else:
-                opt = oname
             via = "estimator" if (si + oi) % 3 == 0 else "function"
-            c = dict(k=k, option=oname, opt=opt, nf=nf, ns=ns, A=A, K=K, K_kind=kk, baseline=base, baseline_kind=bk, lb=lb, ub=ub, w=w, b=b, l2_eps=eps, via=via)
+            # weights: none / one vector / (function only) one row per sample
+            wk = "none" if w is None else "vector"
+            Wrows = np.broadcast_to(np.ones(nf) if w is None else w, (nb, nf)).copy()
+            wgiven = w
+            if via == "function" and rr.random() < 0.3:
+                wk = "per_sample"
+                Wrows = dyadic(rr, 0.5, 2, 2, size=(nb, nf))
+                wgiven = Wrows
+            R.count("weights:" + wk)
+            opt_repr = "-"
+            if oname == "number":
+                opt = float(dyadic(rr, 0.5, 1.5, 2)) * float(np.sum(XT[0]))
+                opt_repr = str(rr.choice(["float", "np.float64", "whole_int", "whole_float"]))
+                if opt_repr.startswith("whole"):
+                    opt = float(np.round(opt))
+                optgiven = {"float": float(opt), "np.float64": np.float64(opt), "whole_int": int(opt), "whole_float": float(opt)}[opt_repr]
+            elif oname in ("vector", "vector_out"):
+                if oname == "vector":
+                    opt = lb + dyadic(rr, 0.1, 0.9, 3, size=ns) * (ub - lb)
+                else:
+                    opt = lb + dyadic(rr, -0.5, 1.5, 3, size=ns) * (ub - lb)
+                if rr.random() < 0.3:
+                    opt = np.round(opt); opt_repr = "whole"
+                else:
+                    opt_repr = "dyadic"
+                # the option must be an ndarray (lists are not an accepted option type); dtype / strides are the caller's
+                optgiven = np.asarray(as_given(rr, opt, R, "vector_option", kinds=("same", "int", "strided")))
+                R.count("vector_option:n_targets%sn_sources" % ("==" if nb == ns else "!="))
+            else:
+                opt = optgiven = oname
+            R.count("opt_repr:%s:%s" % (oname, opt_repr))
+            Bgiven = as_given(rr, B, R, "B")
+            c = dict(k=k, option=oname, opt=opt, opt_repr=opt_repr, nf=nf, ns=ns, nb=nb, A=A, K=K, K_kind=kk, baseline=base, baseline_kind=bk, lb=lb, ub=ub,
+                     w=wgiven, w_kind=wk, B=B, l2_eps=eps, via=via, clamped=nclamp)
             for key in ("option", "K_kind", "baseline_kind", "via"):
                 R.count("%s:%s" % (key, c[key]))
             R.count("eps:%g" % eps); R.count("lb:" + lbk)
             if via == "estimator":
                 filt = np.hstack([np.zeros((nf, 1)), A, np.zeros((nf, 1))]); src = np.hstack([np.zeros((ns, 1)), np.eye(ns), np.zeros((ns, 1))])
                 st, out = call(lambda: dreye.ReceptorEstimator(filt, domain=1.0, K=(1.0 if K is None else K), baseline=base, w=(1.0 if w is None else w),
-                                                                sources=src, lb=lb, ub=ub).fit_underdetermined(b[None], underdetermined_opt=opt, l2_eps=eps))
+                                                                sources=src, lb=lb, ub=ub).fit_underdetermined(Bgiven, underdetermined_opt=optgiven, l2_eps=eps))
             else:
-                st, out = call(lsq_linear_underdetermined, A, b[None], lb=lb, ub=ub, W=w, K=K, baseline=base, underdetermined_opt=opt, l2_eps=eps, return_pred=True)
-            R.driver.ask("p" + k, "prep", ns, K_text(K), ms(A), vs(np.atleast_1d(base)), vs(wv), vs(b))
-            jobs.append((c, st, out, Ap, bp, wv))
+                st, out = call(lsq_linear_underdetermined, A, Bgiven, lb=lb, ub=ub, W=wgiven, K=K, baseline=base, underdetermined_opt=optgiven, l2_eps=eps, return_pred=True)
+            if st == "ok":
+                X = np.asarray(out[0]); BP = np.asarray(out[1])
+                if X.shape != (nb, ns) or BP.shape != (nb, nf):
+                    st, out = "shape", "returned shapes %s, %s for %d targets, %d sources, %d receptors" % (X.shape, BP.shape, nb, ns, nf)
+            rows = []
+            for i in range(nb):
+                R.driver.ask("p%s_%d" % (k, i), "prep", ns, K_text(K), ms(A), vs(np.atleast_1d(base)), vs(Wrows[i]), vs(B[i]))
+                rows.append(dict(i=i, k="%s_%d" % (k, i), b=B[i], wv=Wrows[i]))
+            jobs.append((c, st, out, Ap, bp, rows))
     R.driver.run()
-    for c, st, out, Ap, bp, wv in jobs:
+    for c, st, out, Ap, bp, rows in jobs:
         if st != "ok":
             continue
-        k = c["k"]; ns = c["ns"]
-        C, d, _, _ = parse_prep(R.driver.get("p" + k))
-        Cf = np.array([[float(v) for v in r] for r in C]); df = np.array([float(v) for v in d])
-        xhat = np.asarray(out[0])[0]
-        c["_xhat"] = xhat; c["_C"] = C; c["_d"] = d
-        oname = c["option"]; n = ns
+        ns = c["ns"]; n = ns
+        oname = c["option"]
         eps = c["l2_eps"]
-        if oname in ("min", "max"):
-            cost = np.ones(n) if oname == "min" else -np.ones(n)
-            hints = dual_hints(cost, [], [], Cf, df, eps, c["lb"], c["ub"])
-            c["_mode"] = ("lin", cost)
-            for hi, (lam, v, sig) in enumerate(hints):
-                R.driver.ask("c%s_%d" % (k, hi), "lincert", n, vs(cost), vs(xhat), cert_args_text([], [], C, d, eps, lam, v, sig, c["lb"], c["ub"]))
-        else:
-            if oname == "l2":
-                M = np.eye(n); r = np.zeros(n); scale = 1.0
-            elif oname == "var":
-                M = n * np.eye(n) - np.ones((n, n)); r = np.zeros(n); scale = float(n * n)
-            elif oname == "number":
-                M = np.ones((1, n)); r = np.array([float(c["opt"])]); scale = 1.0
+        for r in rows:
+            k = r["k"]
+            C, d, _, _ = parse_prep(R.driver.get("p" + k))
+            Cf = np.array([[float(v) for v in q] for q in C]); df = np.array([float(v) for v in d])
+            xhat = np.asarray(out[0])[r["i"]]
+            r["xhat"] = xhat; r["C"] = C; r["d"] = d
+            if oname in ("min", "max"):
+                cost = np.ones(n) if oname == "min" else -np.ones(n)
+                hints = dual_hints(cost, [], [], Cf, df, eps, c["lb"], c["ub"])
+                r["mode"] = ("lin", cost)
+                for hi, (lam, v, sig) in enumerate(hints):
+                    R.driver.ask("c%s_%d" % (k, hi), "lincert", n, vs(cost), vs(xhat), cert_args_text([], [], C, d, eps, lam, v, sig, c["lb"], c["ub"]))
             else:
-                M = np.eye(n); r = np.asarray(c["opt"], dtype=float); scale = 1.0
-            g = 2 * M.T @ (M @ xhat - r)
-            hints = dual_hints(g, [], [], Cf, df, eps, c["lb"], c["ub"])
-            c["_mode"] = ("quad", M, r, scale)
-            for hi, (lam, v, sig) in enumerate(hints):
-                R.driver.ask("c%s_%d" % (k, hi), "quadcert", n, ms(M), vs(r), vs(xhat), cert_args_text([], [], C, d, eps, lam, v, sig, c["lb"], c["ub"]))
-        c["_nh"] = len(hints)
+                if oname == "l2":
+                    M = np.eye(n); q = np.zeros(n); scale = 1.0
+                elif oname == "var":
+                    M = n * np.eye(n) - np.ones((n, n)); q = np.zeros(n); scale = float(n * n)
+                elif oname == "number":
+                    M = np.ones((1, n)); q = np.array([float(c["opt"])]); scale = 1.0
+                else:
+                    M = np.eye(n); q = np.asarray(c["opt"], dtype=float); scale = 1.0
+                g = 2 * M.T @ (M @ xhat - q)
+                hints = dual_hints(g, [], [], Cf, df, eps, c["lb"], c["ub"])
+                r["mode"] = ("quad", M, q, scale)
+                for hi, (lam, v, sig) in enumerate(hints):
+                    R.driver.ask("c%s_%d" % (k, hi), "quadcert", n, ms(M), vs(q), vs(xhat), cert_args_text([], [], C, d, eps, lam, v, sig, c["lb"], c["ub"]))
+            r["nh"] = len(hints)
     R.driver.run()
-    for c, st, out, Ap, bp, wv in jobs:
-        k = c["k"]
-        pub = {a: b for a, b in c.items() if not a.startswith("_")}
-        R.case(pub, (k,), sample=(c["option"] in ("var", "vector_out")))
+    for c, st, out, Ap, bp, rows in jobs:
+        pubc = {a: b for a, b in c.items() if not a.startswith("_")}
         sig = "C08:%s" % c["option"]
         if st != "ok":
-            R.failB(dict(pub, impl_error=out), "underdetermined fit raised %s: %s" % (st, out), sig + ":raises:" + st); continue
-        xhat = c["_xhat"]; Bp = np.asarray(out[1])[0]
-        rngb = c["ub"] - c["lb"]
-        if np.any(xhat < c["lb"] - 1e-6 * rngb) or np.any(xhat > c["ub"] + 1e-6 * rngb):
-            R.failB(dict(pub, impl=xhat), "intensities %s violate the bounds" % xhat.tolist(), sig + ":bounds")
-        if np.max(np.abs(Bp - (Ap @ xhat + bp))) > 1e-9 * (np.max(np.abs(Bp)) + 1):
-            R.failB(dict(pub, impl=[xhat, Bp]), "returned prediction is not the model's capture of the returned intensities", sig + ":pred-mismatch")
-        best = None; feas = None; objv = None
-        for hi in range(c.get("_nh", 0)):
-            t = R.driver.get("c%s_%d" % (k, hi))
-            if t is None:
-                continue
-            objv = t.rat(); tok = t.tok(); inb = t.bool(); viol = t.rat(); ball = t.rat()
-            feas = (inb, ball)
-            if tok == "none":
-                continue
-            val = parse_rat(tok)
-            delta = (objv - val) if c["_mode"][0] == "lin" else val
-            if best is None or delta < best:
-                best = delta
-        # reproduces the target within the requested tolerance (the solver's own feasibility tolerance on top)
-        err = float(np.linalg.norm(wv * (Bp - c["b"])))
-        if err > c["l2_eps"] * 1.05 + 1e-7:
-            R.failB(dict(pub, impl=[xhat, Bp], error=err), "target not reproduced within the tolerance: ||W(pred-b)|| = %.3g > l2_eps = %g" % (err, c["l2_eps"]), sig + ":not-reproduced")
-        scale = 1.0 if c["_mode"][0] == "lin" else c["_mode"][3]
-        obj_scale = (abs(float(objv)) if objv is not None else 0.0) / scale + float(np.sum(c["ub"]))
-        ok = best is not None and float(best) / scale <= 1e-4 * obj_scale
-        R.cert(ok)
-        if not ok:
-            # search for a better feasible point with an independent solve before calling it a violation
-            import cvxpy as cp
-            y = cp.Variable(c["ns"])
-            Cf = np.array([[float(v) for v in r] for r in c["_C"]]); df = np.array([float(v) for v in c["_d"]])
-            if c["_mode"][0] == "lin":
-                objective = c["_mode"][1] @ y; cur = float(c["_mode"][1] @ xhat)
+            R.case(pubc, (c["k"],), sample=False)
+            if st == "shape":
+                R.failB(dict(pubc, impl_error=out), out, sig + ":shape")
             else:
-                objective = cp.sum_squares(c["_mode"][1] @ y - c["_mode"][2]); cur = float(np.sum((c["_mode"][1] @ xhat - c["_mode"][2]) ** 2))
-            pr = cp.Problem(cp.Minimize(objective), [cp.norm2(Cf @ y - df) <= c["l2_eps"], y >= c["lb"], y <= c["ub"]])
-            try:
-                pr.solve(solver="CLARABEL")
-                better = pr.value
-            except Exception:  # noqa: BLE001
-                better = None
-            if better is not None and cur - better > 1e-3 * obj_scale * scale:
-                R.failB(dict(pub, impl=xhat, better_point=np.asarray(y.value), goal_impl=cur / scale, goal_better=better / scale),
-                        "secondary goal '%s' is %.6g at the returned intensities but %.6g at another in-bound point that reproduces the target" % (c["option"], cur / scale, better / scale), sig + ":suboptimal")
-            else:
-                R.failA(dict(pub, delta=None if best is None else float(best)), "secondary goal not certified optimal (delta %s)" % (None if best is None else float(best)))
+                R.failB(dict(pubc, impl_error=out), "underdetermined fit raised %s: %s" % (st, out), sig + ":raises:" + st)
+            continue
+        for r in rows:
+            k = r["k"]
+            pub = dict(pubc, k=k, row=r["i"], b=r["b"])
+            R.case(pub, (k,), sample=(c["option"] in ("var", "vector_out") and r["i"] == 0))
+            xhat = r["xhat"]; Bp = np.asarray(out[1])[r["i"]]
+            rngb = c["ub"] - c["lb"]
+            # a clamped source has no range of its own: its tolerance is relative to the size of the box instead
+            tolb = 1e-6 * np.where(rngb > 0, rngb, max(float(np.max(rngb)), float(np.max(np.abs(c["ub"])))))
+            if np.any(xhat < c["lb"] - tolb) or np.any(xhat > c["ub"] + tolb):
+                R.failB(dict(pub, impl=xhat), "intensities %s violate the bounds" % xhat.tolist(), sig + ":bounds")
+            if np.max(np.abs(Bp - (Ap @ xhat + bp))) > 1e-9 * (np.max(np.abs(Bp)) + 1):
+                R.failB(dict(pub, impl=[xhat, Bp]), "returned prediction is not the model's capture of the returned intensities", sig + ":pred-mismatch")
+            best = None; feas = None; objv = None
+            for hi in range(r.get("nh", 0)):
+                t = R.driver.get("c%s_%d" % (k, hi))
+                if t is None:
+                    continue
+                objv = t.rat(); tok = t.tok(); inb = t.bool(); viol = t.rat(); ball = t.rat()
+                feas = (inb, ball)
+                if tok == "none":
+                    continue
+                val = parse_rat(tok)
+                delta = (objv - val) if r["mode"][0] == "lin" else val
+                if best is None or delta < best:
+                    best = delta
+            # reproduces the target within the requested tolerance (the solver's own feasibility tolerance on top)
+            err = float(np.linalg.norm(r["wv"] * (Bp - r["b"])))
+            if err > c["l2_eps"] * 1.05 + 1e-7:
+                R.failB(dict(pub, impl=[xhat, Bp], error=err), "target not reproduced within the tolerance: ||W(pred-b)|| = %.3g > l2_eps = %g" % (err, c["l2_eps"]), sig + ":not-reproduced")
+            scale = 1.0 if r["mode"][0] == "lin" else r["mode"][3]
+            obj_scale = (abs(float(objv)) if objv is not None else 0.0) / scale + float(np.sum(c["ub"]))
+            ok = best is not None and float(best) / scale <= 1e-4 * obj_scale
+            R.cert(ok)
+            if not ok:
+                # search for a better feasible point with an independent solve before calling it a violation
+                import cvxpy as cp
+                y = cp.Variable(c["ns"])
+                Cf = np.array([[float(v) for v in q] for q in r["C"]]); df = np.array([float(v) for v in r["d"]])
+                if r["mode"][0] == "lin":
+                    objective = r["mode"][1] @ y; cur = float(r["mode"][1] @ xhat)
+                else:
+                    objective = cp.sum_squares(r["mode"][1] @ y - r["mode"][2]); cur = float(np.sum((r["mode"][1] @ xhat - r["mode"][2]) ** 2))
+                pr = cp.Problem(cp.Minimize(objective), [cp.norm2(Cf @ y - df) <= c["l2_eps"], y >= c["lb"], y <= c["ub"]])
+                try:
+                    pr.solve(solver="CLARABEL")
+                    better = pr.value
+                except Exception:  # noqa: BLE001
+                    better = None
+                if better is not None and cur - better > 1e-3 * obj_scale * scale:
+                    R.failB(dict(pub, impl=xhat, better_point=np.asarray(y.value), goal_impl=cur / scale, goal_better=better / scale),
+                            "secondary goal '%s' is %.6g at the returned intensities but %.6g at another in-bound point that reproduces the target" % (c["option"], cur / scale, better / scale), sig + ":suboptimal")
+                else:
+                    R.failA(dict(pub, delta=None if best is None else float(best)), "secondary goal not certified optimal (delta %s)" % (None if best is None else float(best)))
